@@ -68,6 +68,8 @@ def run_cases(ctx, cases):
 
 
 def coq_expr(case, out):
+    if "timeout" in out or "skipped" in out:
+        return None
     if "error" in out:
         return "false"
     nx, ny = case["shape"]
@@ -86,6 +88,11 @@ def footprint(b, p, q, nx, ny):
 
 
 def predicate(case, out):
+    if "skipped" in out:
+        return None
+    if "timeout" in out:
+        return ("brush-no-termination", f"BrushConstraint2D did not terminate within {out['timeout']:.0f} s on this design (brush {case.get('diameter', 'custom')}, "
+                                        f"design {case['shape'][0]}x{case['shape'][1]})")
     if "error" in out:
         return ("brush-error", f"BrushConstraint2D fails: {out['error']}")
     if not out["binary"]:
@@ -115,6 +122,8 @@ def predicate(case, out):
 
 
 def nontrivial(case, out):
+    if "timeout" in out or "skipped" in out:
+        return False
     o = np.asarray(out.get("out", [[0]]))
     return bool(o.any() and not o.all())
 
